@@ -19,8 +19,8 @@ RULE = ('seeded random (F, Q, dt): n 1..24 (mpmath subset n<=12 in quick), F sta
         '(n<=2 integrator or the single random 15x15 at one dt); distinct = generator parameters')
 ASSUMPTIONS = ['mpmath Taylor expm at 50 digits is exact relative to float64',
                'rounding bound kappa = exp(|F|_2 dt) * (1+|F|dt)  (conditioning of the block exponential)']
-REQUIRED_OBS = ['post_checked', 'mp_compared', 'composition_checked', 'zero_step_checked']
-REQUIRED_CLASSES = {'all': ['stable', 'unstable', 'nilpotent', 'zero', 'random', 'singularQ', 'dt0']}
+REQUIRED_OBS = ['post_checked', 'mp_compared', 'composition_checked', 'zero_step_checked', 'ambient_calls_checked']
+REQUIRED_CLASSES = {'all': ['stable', 'unstable', 'nilpotent', 'zero', 'random', 'singularQ', 'dt0', 'ambient']}
 EPS = np.finfo(float).eps
 C_PHI = 5e4   # scipy 1.18 expm is only ~1e-12 relative on small blocks (measured: 620 eps)
 C_Q = 5e4
@@ -87,7 +87,10 @@ def _post(ctx, args, kwargs, result):
     F0, Q0, dt = ctx
     if not (np.array_equal(F0, args[0]) and np.array_equal(Q0, args[1])):
         PENDING.append(vio('input_modified', 'F or Q changed by compute_process_matrices'))
-    PENDING.extend(check_post(F0, Q0, dt, result, obs, LAST.get('use_mp', False)))
+    use_mp = LAST.get('use_mp', False)
+    if LAST.get('ambient'):
+        use_mp = len(F0) <= 9 and obs.get('mp_compared', 0) < 12      # mpmath on the small (no sensor states) systems only
+    PENDING.extend(check_post(F0, Q0, dt, result, obs, use_mp))
 
 
 def setup():
@@ -145,11 +148,42 @@ def cases(seed, tier):
             out.append(dict(seed=int(seed) * 1000003 + i, cls=classes[i % 7], mp=True, nmax=24, cost=8))
         for i in range(2100, 30000):
             out.append(dict(seed=int(seed) * 1000003 + i, cls=classes[i % 7], mp=False, nmax=24, cost=1))
+    # ambient: the contract stays on compute_process_matrices while the real filters run (the F, G q^2 G^T they assemble)
+    na = 12 if tier == 'quick' else 200
+    out += [dict(seed=int(seed) * 1000003 + 800000 + i, cls='ambient', cost=30) for i in range(na)]
     return out
+
+
+def run_ambient(case):
+    from pyins import filters, sim
+    import pandas as pd
+    from rv.workloads import schedules
+    S = schedules.build(case['seed'])
+    PENDING.clear()
+    LAST.clear()
+    LAST['ambient'] = True
+    obs = LAST.setdefault('obs', {})
+    err = pd.Series(S['init_err'], index=['north', 'east', 'down', 'VN', 'VE', 'VD', 'roll', 'pitch', 'heading'])
+    try:
+        if case['seed'] % 2 == 0:
+            filters.run_feedback_filter(sim.perturb_pva(S['traj'].iloc[0], err), 5, 1, 0.5, 1.0, S['increments'], S['gyro_model'], S['accel_model'],
+                                        measurements=S['measurements'], time_step=S['time_step'], with_altitude=S['with_altitude'])
+        else:
+            filters.run_feedforward_filter(S['traj'], S['traj'] * 1.0, 5, 1, 0.5, 1.0, S['gyro_model'], S['accel_model'], measurements=S['measurements'],
+                                           increments=S['increments'], time_step=S['time_step'], with_altitude=S['with_altitude'])
+    except Exception as e:
+        return dict(violations=[vio('exception', f'ambient filter run raised {type(e).__name__}: {e}')], obs=obs)
+    n_calls = obs.get('post_checked', 0)
+    obs['ambient_calls_checked'] = n_calls
+    out = [dict(v, message='[ambient, inside a real filter run] ' + v['message']) for v in PENDING[:5]]
+    return dict(violations=out, obs=dict(obs), nontrivial=n_calls > 0, evals=max(1, n_calls), nontrivial_count=max(1, n_calls),
+                sample=dict(cls='ambient', schedule=S['describe'], process_matrix_calls=n_calls, mpmath_compared=obs.get('mp_compared', 0)))
 
 
 def run_case(case):
     from pyins import kalman
+    if case['cls'] == 'ambient':
+        return run_ambient(case)
     F, Q, dt, parts = gen(case)
     PENDING.clear()
     LAST.clear()
